@@ -858,6 +858,14 @@ func (c *Conn) readLoop() {
 			c.addWindow(fr.Stream(), int32(fr.Body().(*WindowUpdate).Increment()))
 		}
 
+		// Every DATA frame the server sends comes out of the connection window,
+		// whether or not a request still waits on its stream, so it is counted
+		// here and not behind the lookup in dispatch.
+		// https://httpwg.org/specs/rfc7540.html#rfc.section.6.9
+		if fr.Type() == FrameData {
+			c.consumeConnWindow(fr.Len())
+		}
+
 		stop := c.dispatch(fr)
 
 		ReleaseFrameHeader(fr)
@@ -1518,27 +1526,34 @@ func (c *Conn) readStream(fr *FrameHeader, r *Ctx) (err error) {
 		err = NewResetStreamError(
 			fr.Body().(*RstStream).Code(), "stream reset by the server")
 	case FrameData:
-		c.currentWindow -= int32(fr.Len())
-		currentWin := c.currentWindow
-
 		data := fr.Body().(*Data)
 		if data.Len() != 0 {
 			res.AppendBody(data.Data())
-
-			// let's send the window update
-			c.updateWindow(fr.Stream(), fr.Len())
 		}
 
-		if currentWin < c.maxWindow/2 {
-			nValue := c.maxWindow - currentWin
-
-			c.currentWindow = c.maxWindow
-
-			c.updateWindow(0, int(nValue))
+		// Padding counts against the stream window like the data does, so the
+		// credit is for the whole frame, and a frame that is all padding gets
+		// it too. The connection window has been dealt with by the read loop.
+		if fr.Len() != 0 {
+			c.updateWindow(fr.Stream(), fr.Len())
 		}
 	}
 
 	return err
+}
+
+// consumeConnWindow takes n octets of DATA out of the connection receive window
+// and tops it back up once less than half is left. It runs on the read loop.
+func (c *Conn) consumeConnWindow(n int) {
+	c.currentWindow -= int32(n)
+
+	if c.currentWindow < c.maxWindow/2 {
+		nValue := c.maxWindow - c.currentWindow
+
+		c.currentWindow = c.maxWindow
+
+		c.updateWindow(0, int(nValue))
+	}
 }
 
 func (c *Conn) updateWindow(streamID uint32, size int) {
